@@ -11,7 +11,7 @@ package node
 //
 // Displaying a parse error with its caret line never fails, provided the reported span lies
 // inside the input (which the scanner guarantees for every span it hands out).
-//@ func reportError [C06]
+//@ func reportError [C06,C08]
 //@   requires err != nil && 0 <= err.From() && err.From() <= err.To() && err.To() <= len(line)
 //
 // ---- record view of instruction words ----------------------------------------------------------
